@@ -2,6 +2,25 @@ import DoitModel.Proofs.StatusDecision
 /-! # M2 — `get_status(..., get_log=True)` agrees with the `get_log=False` decision on "up-to-date" -/
 namespace DoitModel.Status
 
+/-- `doit info` shows the decision of `doit run`, unless its (unconditional) loop over the file dependencies raises -/
+theorem statusLog_eq_statusOf (c : Checker) (d : TaskDef) (r : Rcd) (fs : FS) (resOf : Name → Option Res)
+    (hnc : d.deps.any (depIs .crash c (logRcd c r) fs) = false) :
+    statusLog c d r fs resOf = statusOf true c d r fs resOf := by
+  unfold statusLog statusOf fileVerdict
+  rw [hnc]
+  cases hcc : checkerChanged c r with
+  | true =>
+    simp only [Bool.false_eq_true, if_false, Bool.or_true, if_true]
+    cases earlyRun d r.getValues resOf fs <;> simp
+  | false =>
+    have hr : logRcd c r = r := by simp [logRcd, hcc]
+    rw [hr] at hnc
+    rw [hnc]
+    simp only [Bool.false_eq_true, if_false, Bool.or_false]
+    cases earlyRun d r.getValues resOf fs <;>
+    cases d.deps.any (depMissing fs) <;> cases d.deps.any (depIs .modified c r fs) <;>
+    cases depsChanged true r d.deps <;> simp
+
 theorem statusLog_upToDate_iff (c : Checker) (d : TaskDef) (r : Rcd) (fs : FS) (resOf : Name → Option Res) :
     statusLog c d r fs resOf = .upToDate ↔ statusOf true c d r fs resOf = .upToDate := by
   unfold statusLog statusOf fileVerdict logRcd
@@ -9,8 +28,7 @@ theorem statusLog_upToDate_iff (c : Checker) (d : TaskDef) (r : Rcd) (fs : FS) (
   | true =>
     simp only [if_true, Bool.or_true, Bool.true_or]
     cases earlyRun d r.getValues resOf fs <;>
-    cases d.deps.any (depMissing fs) <;>
-    cases d.deps.any (depIs .crash c Rcd.empty fs) <;> cases d.deps.any (depIs .modified c Rcd.empty fs) <;> simp
+    cases d.deps.any (depIs .crash c Rcd.empty fs) <;> simp
   | false =>
     simp only [Bool.false_eq_true, if_false, Bool.or_false]
     cases earlyRun d r.getValues resOf fs <;>
